@@ -451,6 +451,33 @@ func banners() {
 			}
 		}
 	}
+	// rows longer than 2^16, 2^17, 2^18 pixels (16-bit column counters, subsampled chroma offsets): one row, every
+	// type and subsampling ratio, helper and parallelism rotated (all helpers in thorough)
+	for ti, typ := range img.Types {
+		for wi, w := range []int{65537, 70000, 131073, 262145} {
+			ratios := []int{0}
+			if typ == "YCbCr" || typ == "NYCbCrA" {
+				ratios = []int{0, 1, 2, 3, 4, 5}
+			}
+			for _, ratio := range ratios {
+				hs := []string{[]string{"NRGBA", "RGBA", "RGBA64"}[(ti+wi+ratio)%3]}
+				if ev.Thorough() || typ == "YCbCr" {
+					hs = []string{"NRGBA", "RGBA", "RGBA64"}
+				}
+				for _, helper := range hs {
+					x0 := []int{0, 2, 40}[(wi+ratio)%3]
+					s := img.Spec{Type: typ, Ratio: ratio, Rect: [4]int{x0, 0, x0 + w, 1}, Parent: [4]int{x0, 0, x0 + w, 1}, Fill: "prng", Seed: ev.Seed() + uint64(n), PalN: 255}
+					c := Case{Src: s, Helper: helper, Par: []int{1, 3, 16}[(ti+wi)%3]}
+					n++
+					kd, wh, _ := check(c)
+					if kd != "" && !bad[helper+kd] {
+						bad[helper+kd] = true
+						ev.Violation("convert", c.Helper+"/"+kd, wh, c)
+					}
+				}
+			}
+		}
+	}
 	ev.Eval(n)
 	ev.NTAdd(n)
 	ev.Class("banners", n)
